@@ -66,7 +66,8 @@ Pats == UNION { { p \in [1..n -> Segs] : WellFormed(p) } : n \in 1..MaxSeg } \cu
 \* ---- values used to fill parameters
 ValSmall == { <<>>, <<"a">>, <<"a","b">>, <<"1","2">>, <<"-","1">>, <<"a","-","b">>, <<"a","/","b">> }
 \* near misses of the constraints: Go literal syntax is not an <int>, "TRUE"/"tRUE" case variants of <bool>, "A" vs regex(^a+$)
-ValMid == ValSmall \cup { <<"A">>, <<"0","x","1">>, <<"1","_","0">>, <<"t","R","U","E">>, <<"%41">>, <<"/">> }
+ValMid == ValSmall \cup { <<"A">>, <<"0","x","1">>, <<"1","_","0">>, <<"t","R","U","E">>, <<"%41">>, <<"/">>,
+                           <<"%E2%84%AA","b">>, <<"B+E2","B+84","B+AA","b">> }     \* a non-ASCII letter, percent-encoded and as raw bytes
 ValFull == ValMid \cup { <<"7">>, <<"t","r","u","e">>, <<"a",".","b">>, <<"a","a">>, <<"1","2","3","4">>,
                           <<"a","%2F","b">>, <<"0","0","8">>, <<"+","5">> }
 Vals == CASE Pool = "small" -> ValSmall [] Pool = "mid" -> ValMid [] OTHER -> ValFull
